@@ -17,7 +17,8 @@ import NeumannModel.RaftWal.Model
     node <id>                   fresh node, empty ghost                                   → <nodestate>
     restart <id> <hexfile>      RaftNode::with_wal on these bytes (ghost kept)            → <nodestate> | err checksum
     ev elect | rv t c li lt | rvr t | pvr t 0|1 | lead | ae t l pi pt <t.c,…|-> | aer t | prop c
-       | snap li lt <t.c,…|->   → recs=<rec,…|-> reply=<…> state=<nodestate>
+       | snap li lt <t.c,…|->   (install_snapshot: metadata index/term, entries 1..n)
+                                → recs=<rec,…|-> reply=<…> state=<nodestate>
     shrink <rec> …              apply the in-flight records' effect on the obligations    → ok
     ghost                       → acted=.. votes=.. acked=..
     save | load <k> | drop_slots  snapshots of (node, ghost), numbered from 0
